@@ -19,6 +19,14 @@ from .absval import (Sel, AIter, RepList, ASuper, Lin, Sym, Opaque, Ch, Run, Rep
 from .loader import AnalysisError, norm, short, FuncInfo
 
 
+class AStrIter:
+    """iter(<abstract text>): what is left of the text; next() takes its first character, a for loop walks the rest."""
+
+    def __init__(self, rest):
+        self.rest = rest
+        self.broken = False  # left in the middle by a break: where it stands is not known
+
+
 class AMethodCaller:
     """operator.methodcaller(name, *args, **kwargs)."""
 
@@ -1215,7 +1223,11 @@ class Interp:
         if isinstance(v, _Fraction) and name in ("numerator", "denominator"):
             return getattr(v, name)
         if hasattr(v, "a_getattr"):
-            return v.a_getattr(self, name, node)
+            r_ = v.a_getattr(self, name, node)
+            if r_ is not NotImplemented:
+                return r_
+            if hasattr(v, "a_method"):
+                return ABound(v, name)
         if isinstance(v, ASuper):
             mro = self.repo.mro(v.obj.cls) if v.obj.cls is not None else []
             after = mro[mro.index(v.ci) + 1:] if v.ci in mro else []
@@ -1527,6 +1539,12 @@ class Interp:
                     if len(args) > 1:
                         return args[1]
                     raise RaiseEx("KeyError", node)
+                if name == "get" and isinstance(k, (AbsStr, Ch)) and all(isinstance(kk, str) for kk in recv):
+                    # an abstract text as key: it is one of the entries it can be equal to, or none of them
+                    for kk in list(recv):
+                        if self.equal(k, kk, node):
+                            return recv[kk]
+                    return args[1] if len(args) > 1 else None
                 if name == "get" and Lin.of(k) is not None and all(isinstance(kk, int) and not isinstance(kk, bool) for kk in recv):
                     # a symbolic integer key: one path per entry it can be, one for "none of them"
                     for kk in sorted(recv):
@@ -1547,6 +1565,15 @@ class Interp:
                 return dict(recv)
             if name == "clear":
                 recv.clear(); return None
+        if isinstance(recv, set) and not _has_abs(list(recv)) and not _has_abs(args) and name in (
+                "add", "discard", "remove", "update", "clear", "copy", "pop", "union", "intersection", "difference", "issubset", "issuperset", "isdisjoint"):
+            try:
+                hash(tuple(args)) if name in ("add", "discard", "remove") else None
+                return getattr(recv, name)(*args)
+            except KeyError:
+                raise RaiseEx("KeyError", node)
+            except TypeError:
+                raise RaiseEx("TypeError", node)
         if isinstance(recv, (bytes, bytearray)) and not _has_abs(args) and name in (
                 "join", "decode", "hex", "startswith", "endswith", "find", "index", "count", "replace", "split", "strip"):
             try:
@@ -1627,6 +1654,31 @@ class Interp:
             if r == -1 and isinstance(r, int) and name.endswith("index"):
                 raise RaiseEx("ValueError", node)
             return r
+        if name in ("partition", "rpartition") and len(args) == 1 and isinstance(args[0], str) and len(args[0]) == 1:
+            sep = args[0]
+            units = list(self.norm_str(recv if isinstance(recv, AbsStr) else AbsStr([recv])).units())
+            order = range(len(units)) if name == "partition" else range(len(units) - 1, -1, -1)
+            for k in order:
+                a = units[k]
+                if isinstance(a, str):
+                    hit = (a == sep)
+                elif isinstance(a, Ch):
+                    hit = a.contains_only([sep])
+                elif isinstance(a, Run):
+                    rs = [c.contains_only([sep]) for c in a.classes]
+                    hit = False if all(r is False for r in rs) else None
+                elif _is_rep(a):
+                    hit = False if sep not in a.lit else None
+                else:
+                    hit = None
+                if hit is None:
+                    raise CannotDecide("%s(%r) at %r" % (name, sep, a))
+                if hit:
+                    before, after = units[:k], units[k + 1:]
+                    mk_ = lambda xs: (simplify_str(AbsStr(xs)) if xs else "")
+                    return (mk_(before), sep, mk_(after))
+            whole = simplify_str(recv) if isinstance(recv, AbsStr) else recv
+            return (whole, "", "") if name == "partition" else ("", "", whole)
         if name in ("strip", "lstrip", "rstrip") and len(args) == 1 and isinstance(args[0], str) and args[0]:
             # characters of a known set are taken off the ends: an atom goes when all it can be is in the set, the walk
             # stops at an atom none of whose characters is in it; anything in between cannot be decided
@@ -1700,6 +1752,13 @@ class Interp:
             E = recv.excluded
             if all(c.upper() in E and c.lower() in E for c in E):
                 return recv
+        if name == "count" and len(args) in (2, 3) and isinstance(args[0], str) and len(args[0]) == 1 \
+                and all(a is None or (isinstance(a, int) and not isinstance(a, bool)) for a in args[1:]):
+            # s.count(c, start[, end]) == s[start:end].count(c)
+            part = self.slice(recv, args[1], args[2] if len(args) == 3 else None, None, node)
+            if isinstance(part, str):
+                return part.count(args[0])
+            return self.str_method(part, "count", [args[0]], node)
         if name == "count" and len(args) == 1 and isinstance(args[0], str) and len(args[0]) == 1:
             c, total = args[0], Lin({}, 0)
             recv2 = self.norm_str(recv if isinstance(recv, AbsStr) else AbsStr([recv]))
@@ -2076,6 +2135,26 @@ class Interp:
             return sorted(args[0], reverse=bool(kwargs.get("reverse", False)))
         if name == "divmod" and len(args) == 2 and _has_abs(args) and all(Lin.of(x) is not None for x in args):
             return (self.binop(ast.FloorDiv, args[0], args[1], node), self.binop(ast.Mod, args[0], args[1], node))
+        if name in ("groupby", "ext:itertools.groupby") and args and isinstance(args[0], (list, tuple, AIter)):
+            src = args[0]
+            if isinstance(src, AIter):
+                if not isinstance(src.items, list):
+                    raise CannotDecide("groupby over %r" % (src,))
+                items = list(src.items)
+                del src.items[:]
+            else:
+                items = list(src)
+            kf = args[1] if len(args) > 1 else kwargs.get("key")
+            groups = []
+            for x in items:
+                kx = self.call(kf, [x], {}, node) if kf is not None else x
+                if _has_abs(kx):
+                    raise CannotDecide("groupby key %r" % (kx,))
+                if groups and groups[-1][0] == kx:
+                    groups[-1][1].append(x)
+                else:
+                    groups.append((kx, [x]))
+            return AIter([(k_, AIter(g_)) for k_, g_ in groups])
         if name in ("methodcaller", "ext:operator.methodcaller") and args and isinstance(args[0], str):
             return AMethodCaller(args[0], list(args[1:]), dict(kwargs))
         if name in ("tuple", "list") and len(args) == 1 and isinstance(args[0], ABuiltin) and args[0].name.split(".")[-1] in ("string_types", "integer_types"):
@@ -2088,6 +2167,27 @@ class Interp:
             return AIter(args[0].reversed())
         if name == "iter" and isinstance(args[0], (list, tuple)):
             return AIter(list(args[0]))
+        if name == "iter" and isinstance(args[0], str):
+            return AIter(list(args[0]))
+        if name == "iter" and isinstance(args[0], AIter):
+            return args[0]
+        if name == "iter" and isinstance(args[0], AbsStr) and all(isinstance(u, (str, Ch)) for u in self.norm_str(args[0]).units()):
+            return AIter(list(self.norm_str(args[0]).units()))
+        if name == "iter" and isinstance(args[0], AbsStr):
+            return AStrIter(args[0])
+        if name == "next" and args and isinstance(args[0], AStrIter) and not kwargs:
+            it_ = args[0]
+            if it_.broken:
+                raise CannotDecide("next() on a text iterator a loop was broken out of")
+            units = list(self.norm_str(it_.rest).units()) if isinstance(it_.rest, AbsStr) else list(it_.rest)
+            if not units:
+                if len(args) > 1:
+                    return args[1]
+                raise RaiseEx("StopIteration", node)
+            if isinstance(units[0], (str, Ch)):
+                it_.rest = simplify_str(AbsStr(units[1:])) if units[1:] else ""
+                return units[0]
+            raise CannotDecide("next() at %r" % (units[0],))
         if name in ("list", "tuple") and args and isinstance(args[0], AIter):
             it = args[0].items
             if isinstance(it, RepList):
@@ -2142,6 +2242,11 @@ class Interp:
             return acc
         if name in ("ext:fractions.Fraction", "Fraction") and len(args) == 1 and hasattr(args[0], "a_fraction"):
             return args[0].a_fraction(self, node)
+        if name in ("ext:fractions.Fraction", "Fraction") and len(args) == 2:
+            from .numdom import ratpart_fraction
+            r_ = ratpart_fraction(args)
+            if r_ is not NotImplemented:
+                return r_
         if name in ("int", "float", "str", "abs", "bool", "min", "max", "sum", "round", "ord", "chr") \
                 and not _has_abs(args) and not kwargs:
             try:
@@ -2494,6 +2599,18 @@ class Interp:
     def s_For(self, st, frame):
         from . import absloops
         it = _unlin(self.eval(st.iter, frame))
+        if isinstance(it, AStrIter):
+            if it.broken:
+                raise CannotDecide("loop over a text iterator an earlier loop was broken out of")
+            src = it
+            it = it.rest
+            src.rest = ""
+            if any(isinstance(n, ast.Break) for b in st.body for n in ast.walk(b)):
+                src.broken = True
+            if isinstance(it, str):
+                it = list(it)
+            elif isinstance(it, AbsStr) and not (it.has_run() or any(_is_rep(a) for a in it.atoms)):
+                it = list(self.norm_str(it).units())
         if isinstance(it, AbsStr) and (it.has_run() or any(_is_rep(a) for a in it.atoms)):
             broke = absloops.for_over_absstr(self, st, it, frame)
         elif isinstance(it, AEnumerate) and isinstance(st.target, ast.Tuple) and len(st.target.elts) == 2:
